@@ -496,3 +496,71 @@ def case_tensor_consts(ctx, cfg):
             if e is not None or not np.array_equal(t.array, base[name][0]):
                 ctx.fail(f"tensor-constant:{name}:after-geometry", name, {"after": "every 9th pool action"}, "definition", e if e is not None else "changed")
                 return
+
+
+# ---------------------------------------------------------------------------------------------------
+# an in-place write (the public item assignment x[...] = new coordinates) between two queries on the same object: the second
+# query answers for the new coordinates, exactly as an object that received the same assignment before its first query.
+# Only kinds that consist of their coordinate array alone (polytopes and the bound quadric classes compute supporting
+# lines / planes / parameters at construction time, so writing into their arrays is outside what they support).
+
+WRITE_KINDS = ("P2", "P3", "L2", "E3", "L3", "CON", "Q3", "T2", "T3")
+
+
+def _other_coordinates(arr, kind):
+    """Coordinates of a DIFFERENT valid object of the same kind and dtype (a coordinate permutation of the same entries)."""
+    a = np.asarray(arr)
+    if kind in ("P2", "P3", "L2", "E3"):
+        return np.roll(a, 1, axis=-1).copy()
+    perm = np.roll(np.arange(a.shape[-1]), 1)
+    if kind in ("T2", "T3"):
+        return a[..., perm, :].copy()  # rows permuted: still invertible
+    return a[..., perm, :][..., :, perm].copy()  # P A P^T: symmetric stays symmetric, a line matrix stays a line matrix
+
+
+def enum_write(tier, seed):
+    for kind in WRITE_KINDS:
+        for which in ("s0", "s1"):
+            yield (kind, which)
+
+
+@family("C12", "in_place_write_between_queries", enum_write)
+def case_write(ctx, cfg):
+    import geometer as G
+
+    kind, which = cfg
+    ops = [op for op in unary_like_ops(kind) if all(k in WRITE_KINDS or k == "NUM" for k in op.kinds)]
+
+    def call(op, first, pool):
+        rest = [2 if k == "NUM" else pool[(k, "s0")] for k in op.kinds[1:]]
+        r, e = ctx.call(op.fn, G, first, *rest)
+        return e if e is not None else r
+
+    probe = build_pool(G)
+    if (kind, which) not in probe:
+        return
+    fresh_answers = {}
+    for q2 in ops:
+        p = build_pool(G)
+        x = p[(kind, which)]
+        x[...] = _other_coordinates(x.array, kind)
+        fresh_answers[q2.name] = materialise(call(q2, x, p))
+    for q1 in ops:
+        pool = build_pool(G)
+        x = pool[(kind, which)]
+        call(q1, x, pool)  # first query
+        x[...] = _other_coordinates(x.array, kind)  # in-place write
+        for q2 in ops:
+            r = call(q2, x, pool)
+            ctx.trace()
+            ctx.state((kind, which, q1.name, q2.name))
+            fa = fresh_answers[q2.name]
+            if isinstance(fa, BaseException) or isinstance(r, BaseException):
+                if type(fa) is not type(r):
+                    ctx.fail(f"stale-after-write:{q2.name}:after:{q1.name}:exception-differs", q2.name, {"kind": kind, "object": which, "query_before_write": q1.name, "query": q2.name}, repr(fa), repr(r))
+                    return
+                continue
+            why = same_result(q2.res, fa, r)
+            if why:
+                ctx.fail(f"stale-after-write:{q2.name}:after:{q1.name}", q2.name, {"kind": kind, "object": which, "query_before_write": q1.name, "query": q2.name}, "the answer for an object that received the same coordinates before its first query", why)
+                return
